@@ -109,7 +109,7 @@ def dumps_variant(r, v):
 
 def rnd_message_item(r):
     """An item that is a well-formed JSON-RPC text: written by the real encoder, or a JSON text in some layout."""
-    kind = r.randrange(6)
+    kind = r.randrange(7)
     rid = r.choice([1, 2, 7, 0, -5, 2147483647, r.randrange(1, 1000)])
     if kind == 0:
         return {"enc": "req", "id": rid, "m": B(rnd_string(r) or "m"), **({"p": B(json.dumps(rnd_value(r), ensure_ascii=False))} if r.random() < 0.85 else {})}
@@ -122,8 +122,11 @@ def rnd_message_item(r):
         if r.random() < 0.7: msg["id"] = rid
     elif kind == 4:
         msg = {"jsonrpc": "2.0", "id": rid, "result": rnd_value(r)}
-    else:
+    elif kind == 5:
         msg = [{"jsonrpc": "2.0", "method": "b%d" % i, "params": rnd_value(r, 2)} for i in range(r.randrange(1, 4))]
+    else:
+        msg = {"jsonrpc": "2.0", "error": {"code": r.choice([-32700, -32600, -1, 9]), "message": rnd_string(r)}}
+        if r.random() < 0.6: msg["id"] = rid
     return {"t": B(dumps_variant(r, msg))}
 
 
@@ -173,7 +176,7 @@ def seeded_framing_scripts(r, n_valid, n_hostile):
     for i in range(n_hostile):
         f = FRAMINGS[i % 3]
         base = bytes(rnd_message_item_text(r))
-        m = r.randrange(10)
+        m = r.randrange(13)
         if m == 0: t = bytes(r.randrange(256) for _ in range(r.randrange(1, 40)))
         elif m == 1: t = base[:r.randrange(0, len(base))]                                    # truncated
         elif m == 2: k = r.randrange(len(base)); t = base[:k] + bytes([r.randrange(256)]) + base[k + 1:]   # one byte replaced
@@ -183,7 +186,10 @@ def seeded_framing_scripts(r, n_valid, n_hostile):
         elif m == 6: t = b"[" * r.randrange(1, 400) + b"]" * r.randrange(0, 400)
         elif m == 7: t = b'{"jsonrpc":"2.0","id":' + r.choice([b'"x"', b'1e400', b'4294967297', b'-1.5', b'{}', b'99999999999999999999']) + b',"result":1}'
         elif m == 8: t = b'{"jsonrpc":"2.0","id":1,"error":' + r.choice([b'1', b'[]', b'{"code":"x"}', b'null', b'{"code":1e99}']) + b'}'
-        else: t = b'{"a":"\xc3(","b":"\xed\xa0\x80"}'                                          # invalid UTF-8
+        elif m == 9: t = b'{"a":"\xc3(","b":"\xed\xa0\x80"}'                                       # invalid UTF-8
+        elif m == 10: t = (b'{"jsonrpc":"2.0","error":{"code":' + r.choice([b'-32700,"message":"Parse error"', b'-32600', b'7']) + b'},"id":' + r.choice(ODD_IDS) + b'}')
+        elif m == 11: t = b'{"jsonrpc":"2.0","id":' + r.choice(ODD_IDS) + b',"result":' + r.choice([b'null', b'[1]', b'{"a":"}"}']) + b'}'
+        else: t = b'{"jsonrpc":"2.0","method":"m","id":' + r.choice(ODD_IDS) + b',"params":[1]}'
         items = []
         if r.random() < 0.5: items.append(rnd_message_item(r))                                # a good message first
         if f == "header" and r.random() < 0.6:
@@ -200,6 +206,11 @@ def seeded_framing_scripts(r, n_valid, n_hostile):
             runs.append(list(range(1, len(s))))
         scripts.append({"f": f, "items": items, "runs": runs})
     return scripts
+
+
+# ids that are present but not an int-range integer (error / result responses and requests of the hostile corpus)
+ODD_IDS = [b'null', b'"abc"', b'"1"', b'[1]', b'[]', b'{}', b'{"x":1}', b'1.5', b'-0.5', b'1e3', b'4294967297', b'2147483648', b'-2147483649',
+           b'99999999999999999999', b'true', b'false']
 
 
 def rnd_message_item_text(r):
@@ -222,7 +233,11 @@ def run_frame(ctx, exe, scripts, tag, what, replayed):
 
 
 # ------------------------------------------------------------------------------------------------ rpc scripts
-STRANGERS = ["0", "-1", "99999", "4294967297", "4294967298", "8589934593", "\"1\"", "1.5", "null", "true", "[1]", "{}", "-4294967295"]
+# "id" members (JSON text; "" = no id member) of messages that match no waiting request.  Several of them would alias a live id
+# (1, 2, 3, ...) if the id were converted carelessly: fractions, values beyond 2^31 / 2^32, strings and arrays holding a live id.
+STRANGERS = ["0", "-1", "99999", "4294967297", "4294967298", "4294967299", "8589934593", "-4294967295", "2147483649", "\"1\"", "\"abc\"",
+             "1.5", "2.5", "3.9", "0.5", "null", "null", "true", "[1]", "[]", "{}", "{\"a\":1}", ""]
+STRANGER_KINDS = ["res", "err", "err", "req"]          # result response, error response (twice as often), incoming request
 
 
 def gen_to_rpc_scripts(behs, r):
@@ -234,7 +249,7 @@ def gen_to_rpc_scripts(behs, r):
                 steps.append({"o": "req", "cb": op["cb"], "body": op["body"]} if op["cb"] else {"o": "req", "cb": False})
             elif op["o"] == "rsp":
                 if op["k"] > 0: steps.append({"o": "rsp", "k": op["k"], "kind": "err" if (i + len(steps)) % 5 == 0 else "res", "val": -7 - len(steps)} if (i + len(steps)) % 5 == 0 else {"o": "rsp", "k": op["k"]})
-                else: steps.append({"o": "rsp", "raw": op["raw"]})
+                else: steps.append({"o": "rsp", "raw": op["raw"], "kind": ["err", "res", "err", "req"][(i + len(steps)) % 4]})
             elif op["o"] == "adv":
                 steps.append({"o": "adv", "u": 1})
             else:
@@ -269,7 +284,7 @@ def seeded_rpc_scripts(r, n, nsteps):
                 k = max(1, nreq + 1 - r.choice([0, 1, 1, 1, 2, 2, 3, 5]))          # mostly a recent request, sometimes one not issued yet
                 steps.append({"o": "rsp", "k": k, "kind": "err", "val": r.choice([-1, -7, 5, -32601])} if r.random() < 0.3 else {"o": "rsp", "k": k})
             elif x < 0.6:
-                steps.append({"o": "rsp", "raw": r.choice(STRANGERS)})
+                steps.append({"o": "rsp", "raw": r.choice(STRANGERS), "kind": r.choice(STRANGER_KINDS)})
             elif x < 0.985:
                 steps.append({"o": "adv", "u": r.randrange(1, T + 1)})
             else:
